@@ -102,7 +102,11 @@ fn run_cases(run: &Run, label: &str, n: u64, get: &(dyn Fn(u64) -> Value + Sync)
                 }
                 Outcome::Failed(f) => {
                     run.eval();
-                    let id = failure_identity(driver, &f);
+                    // the iftf2 families are distinct input classes: name the family in the identity
+                    let id = match (driver, case["family"].as_str()) {
+                        ("iftf2", Some(fam)) => failure_identity(&format!("iftf2 {fam}"), &f),
+                        _ => failure_identity(driver, &f),
+                    };
                     let what = format!(
                         "worker {} while running case {}: stage={:?} sub={} function={:?} ({})",
                         f.kind, short(case), f.stage, f.sub, f.function, f.detail
